@@ -120,6 +120,18 @@ def _run_unit(args):
         def cex(ex, sym, site, inputs, detail):
             ok, how = _replay_inproc(u.fn, site, inputs)
             if not ok:
+                # the in-process re-run shares module state with the symbolic runs (a change that caches things at
+                # module level can leak symbolic objects into it): decide in a fresh, un-instrumented interpreter
+                import tempfile
+                with tempfile.NamedTemporaryFile("w", suffix=".json", delete=False, dir=REPLAYS if os.path.isdir(REPLAYS) else None) as tf:
+                    json.dump({"property": mod.PROPERTY, "module": modname, "tier": tier, "unit": unit_name, "site": site,
+                               "inputs": to_json(inputs), "detail": ""}, tf, default=str)
+                try:
+                    if _fresh_replay(modname, tf.name) == EXIT_VIOLATION:
+                        ok, how = True, "reproduced in a fresh interpreter (in-process re-run: " + how + ")"
+                finally:
+                    os.unlink(tf.name)
+            if not ok:
                 raise HarnessError(f"{unit_name}: counterexample at {site} does not reproduce on concrete "
                                    f"values ({how}); inputs={inputs}")
             k = _match_known(known, unit_name, site, inputs)
